@@ -128,12 +128,19 @@ def scenario(ch, cfg):
     # ---- callers
     def make_msg(i, j):
         base = 1000 * (i + 1)
-        kind = 0 if peer_kind == "scripted" else ch.weighted([5, 2, 1], "msgkind")
+        kind = 0 if peer_kind == "scripted" else ch.weighted([5, 2, 1, 1, 1, 1], "msgkind")
         if kind == 0:
             return f"{base}+{j}", base + j
         if kind == 1:
             return ipc.KGRemoteFnCall(KGSym("sq"), [base + j]), (base + j) ** 2
-        return f"v+{base + j}", 4711 + base + j
+        if kind == 2:
+            return f"v+{base + j}", 4711 + base + j
+        if kind == 3:
+            # the other client-side handles of the same connection: function proxy, remote dictionary get / set
+            return ("proxy", base + j), (base + j) ** 2
+        if kind == 4:
+            return ("dictget",), 4711
+        return ("dictset", base + j), "handle"
 
     error_call = None
     if fault == "server-error":
@@ -169,7 +176,18 @@ def scenario(ch, cfg):
                 stats["probe_three_pending"] += 1
             w.note(f"inv {i}.{j}")
             try:
-                res = nc.call(msg)
+                if isinstance(msg, tuple) and msg[0] == "proxy":
+                    stats["probe_proxy_caller"] += 1
+                    res = ipc.KGRemoteFnProxy(nc, KGSym("sq"), 1)(None, {KGSym("x"): msg[1]})
+                elif isinstance(msg, tuple) and msg[0] == "dictget":
+                    stats["probe_dict_handle_caller"] += 1
+                    res = ipc.NetworkClientDictHandle(nc).get(KGSym("v"))
+                elif isinstance(msg, tuple) and msg[0] == "dictset":
+                    stats["probe_dict_handle_caller"] += 1
+                    h = ipc.NetworkClientDictHandle(nc)
+                    res = "handle" if h.set(KGSym(f"w{i}"), msg[1]) is h else "not-the-handle"
+                else:
+                    res = nc.call(msg)
                 rec["outcome"] = ("ok", res)
             except SystemExit:
                 raise
@@ -259,7 +277,7 @@ def scenario(ch, cfg):
                     viol("C14:server-error-not-propagated", f"call {rec['msg']} returned {oc[1]!r} although the server-side evaluation fails")
             else:
                 try:
-                    same = int(oc[1]) == exp
+                    same = (oc[1] == exp) if isinstance(exp, str) else int(oc[1]) == exp
                 except Exception:
                     same = False
                 if not same:
